@@ -191,6 +191,12 @@ def run_shard(ctx):
                 # an outcome that repeats a condition (same variable, same value): P(y, x | x) = P(y | x)
                 out = out + [list(rng.choice(cond))]
                 cls = cls + "+outcome-repeats-condition"
+            elif cond and rng.random() < 0.1:
+                # an outcome that contradicts a condition (same variable, other value): probability zero
+                c = rng.choice(cond)
+                if c[2] is not None:
+                    out = out + [[c[0], [list(w) for w in c[1]], not c[2]]]
+                    cls = cls + "+outcome-contradicts-condition"
             elif out and rng.random() < 0.18:
                 # one outcome variable listed twice with different values: an impossible event, the answer must be zero
                 c = rng.choice(out)
